@@ -7,10 +7,19 @@ Streams
             function: the repaired sites (keyword names, format keys, protocol members, `or` constraints) must give
             exactly the model's text; the open sites (definition-node sets) are fed with the iteration order observed
             in this process (`perm=1`: a reordering of the expected set; `out=`: reproduced exactly)
+  caches  : AST scan of the per-Checker classes for container attributes -> Generated/CacheSites.lean (translate);
+            obligation `caches_registered` (every one has a kind in Lean `modelledCaches`)
+  cache   : after every program of a history (and after every API query) every entry of the containers registered as
+            memo / protoCache is rendered; an entry present earlier must render the same later (immutable after
+            insertion), transient containers must be empty between checks
+  unify   : value.py unify_bounds_maps against the pure Lean `unifyBM`; its arguments must be unchanged afterwards
+            and the result must not share a list with them
   memo    : Checker.make_type_object / ArgSpecCache.get_argspec / _get_generic_bases_cached driven with query
             histories; hit/miss/bypass trace and table size against `memoStep`; answers against a fresh checker
-  proto   : TypedValue(P).can_assign(v, checker) along histories of queries (normal / set_exclude_any) over
-            generated protocol worlds (mutually recursive protocols, Any-typed members) against `check`
+  proto   : GenericValue(P, [int | str | T]).can_assign(C, checker) along histories of queries (normal /
+            set_exclude_any) over generated protocol worlds (mutually recursive generic protocols, Any-typed members,
+            type-variable slots) against `check`: verdict AND returned bounds map; after each answer the harness
+            unifies it with another bound, as the call machinery does for `f(a: P[T], b: T)`
   protoE2E: the same worlds as library modules + generated programs (annotated assignments, @evaluated
             is_of_type), checked through NameCheckVisitor with one shared Checker
   spec    : fresh answers of the implementation against the greatest fixed point `gfpCompat` and, for
@@ -30,7 +39,9 @@ from harness.common import lean, pya
 PROP = "C10"
 LEAN_PROP = "PyaModel.Props.C10"
 NAMESPACE = "Pya.C10"
-LEAN_TARGETS = ["PyaModel.Spec.CacheSpec", "PyaModel.Generated.SetSites"]
+LEAN_TARGETS = ["PyaModel.Spec.CacheSpec", "PyaModel.Generated.SetSites", "PyaModel.Generated.CacheSites"]
+CACHE_FILES = ["pyanalyze/checker.py", "pyanalyze/arg_spec.py", "pyanalyze/type_object.py", "pyanalyze/typeshed.py",
+               "pyanalyze/reexport.py", "pyanalyze/suggested_type.py"]
 SCAN_FILES = [
     "pyanalyze/value.py", "pyanalyze/stacked_scopes.py", "pyanalyze/signature.py", "pyanalyze/type_object.py",
     "pyanalyze/checker.py", "pyanalyze/name_check_visitor.py", "pyanalyze/arg_spec.py", "pyanalyze/format_strings.py",
@@ -64,7 +75,12 @@ RULE = (
     "unions, with reveal_type; 1..4 assignments inside try / `with contextlib.suppress` bodies with reveal_type "
     "afterwards; variables with 2..5 definitions (if/elif/else) narrowed and revealed) plus plain control snippets; "
     "one-query programs (annotated assignment = normal mode, @evaluated is_of_type = exclude-Any mode) over typeshed "
-    "protocols x builtin values and over generated protocol worlds imported as a shared library module; small "
+    "protocols x builtin values and over generated protocol worlds imported as a shared library module; calls of "
+    "generic callables whose generic Protocol parameter is matched structurally while another parameter uses the same "
+    "type variable, several times per callable and receiver with different other arguments, with reveal_type / "
+    "wrong-return / wrong-argument probes (typeshed: pow, sum, max/min, sorted, divmod, round, abs, iter/next over "
+    "Fraction / int / float / str / complex / list / dict receivers; generated: lib.f<i>(c, arg) with def f<i>(a: "
+    "P<i>[T], b: T) -> T over the well-founded worlds); small "
     "parameter values enumerated first, then seeded random ones. Every program is checked fresh, again with the same "
     "Checker, under 4 (quick) / 8 (thorough) PYTHONHASHSEED values in fresh interpreters, and at a random position of "
     "3 (quick) / 10 (thorough) random orders of all programs of the run, each order sharing one Checker. Protocol "
@@ -85,7 +101,10 @@ ASSUMPTIONS = [
     "`unrelated earlier programs` = other generated programs of the same run; they may import the same generated "
     "library module and the same typeshed/builtin types (programs sharing a dependency), never each other",
     "Model B abstracts one slot check `expected.can_assign(actual)` to an atom (true / false / true-unless-Any-is-"
-    "excluded / nested protocol check); bounds maps are not modelled (error or no error only); for typeshed protocols "
+    "excluded / accepted-with-a-bound / nested protocol check); a positive answer is a bounds map of tokens (the kinds "
+    "of bounds and the solving of type variables are not modelled); Lean values are immutable, so that no Python "
+    "operation writes into a cached value is checked by the cache snapshots and the unify stream, not proved; module-"
+    "level (process-global) caches are not per-Checker and not scanned; for typeshed protocols "
     "the atom of a pair is measured on fresh checkers (both modes) and only protocols whose verdict is the protocol "
     "check alone are used",
     "ArgSpecCache._cached_get_argspec keys its table by the object only although the computation also receives "
@@ -370,6 +389,67 @@ def scan_sites(repo):
     return sorted(out)
 
 
+_CONTAINER_NAMES = {"dict", "Dict", "list", "List", "set", "Set", "defaultdict", "DefaultDict", "OrderedDict", "MutableMapping",
+                    "MutableSequence", "MutableSet", "deque", "Counter"}
+
+
+def _is_container_annotation(ann):
+    if isinstance(ann, ast.Constant) and isinstance(ann.value, str):
+        try:
+            ann = ast.parse(ann.value, mode="eval").body
+        except SyntaxError:
+            return False
+    if isinstance(ann, ast.Subscript):
+        ann = ann.value
+    if isinstance(ann, ast.Attribute):
+        return ann.attr in _CONTAINER_NAMES
+    return isinstance(ann, ast.Name) and ann.id in _CONTAINER_NAMES
+
+
+def _is_container_value(v):
+    if isinstance(v, (ast.Dict, ast.List, ast.Set, ast.DictComp, ast.ListComp, ast.SetComp)):
+        return True
+    if isinstance(v, ast.Call):
+        f = v.func
+        n = f.id if isinstance(f, ast.Name) else f.attr if isinstance(f, ast.Attribute) else None
+        if n in ("dict", "list", "set", "defaultdict", "OrderedDict", "deque", "Counter"):
+            return True
+        if n == "field":   # dataclasses.field(default_factory=dict)
+            for k in v.keywords:
+                if k.arg == "default_factory" and isinstance(k.value, ast.Name) and k.value.id in ("dict", "list", "set"):
+                    return True
+    return False
+
+
+def scan_caches(repo):
+    """[(file, class, attribute)]: every container attribute (dict / list / set, by annotation or initial value) of the
+    classes of the files whose instances live as long as a Checker."""
+    out = set()
+    for f in CACHE_FILES:
+        tree = ast.parse(open(os.path.join(repo, f)).read())
+        for cls in [n for n in ast.walk(tree) if isinstance(n, ast.ClassDef)]:
+            for node in cls.body:
+                if isinstance(node, ast.AnnAssign) and isinstance(node.target, ast.Name) and (
+                        _is_container_annotation(node.annotation) or (node.value is not None and _is_container_value(node.value)
+                                                                      and not (isinstance(node.value, ast.Call) and getattr(node.value.func, "id", "") == "field"))):
+                    out.add((f, cls.name, node.target.id))
+                elif isinstance(node, ast.Assign) and _is_container_value(node.value):
+                    for t in node.targets:
+                        if isinstance(t, ast.Name):
+                            out.add((f, cls.name, t.id))
+                elif isinstance(node, (ast.FunctionDef, ast.AsyncFunctionDef)):
+                    for sub in ast.walk(node):
+                        tgt = val = ann = None
+                        if isinstance(sub, ast.Assign) and len(sub.targets) == 1:
+                            tgt, val = sub.targets[0], sub.value
+                        elif isinstance(sub, ast.AnnAssign):
+                            tgt, val, ann = sub.target, sub.value, sub.annotation
+                        if isinstance(tgt, ast.Attribute) and isinstance(tgt.value, ast.Name) and tgt.value.id == "self" and (
+                                (val is not None and _is_container_value(val)) or (ann is not None and _is_container_annotation(ann))):
+                            out.add((f, cls.name, tgt.attr))
+    return sorted(out)
+
+
 def _lean_str(s):
     return '"' + s.replace("\\", "\\\\").replace('"', '\\"') + '"'
 
@@ -390,6 +470,19 @@ def translate(ctx):
         "end Pya.C10.Gen\n"
     )
     lean.write_if_changed(os.path.join(lean.LEAN, "PyaModel", "Generated", "SetSites.lean"), text)
+    caches = scan_caches(pya.REPO)
+    ctx.extra["scanned_cache_sites"] = len(caches)
+    rows = ",\n".join("  (%s, %s, %s)" % tuple(_lean_str(x) for x in c) for c in caches)
+    text = (
+        "/-! Regenerated by harness/props/c10.py `translate` from the live pyanalyze (AST scan of\n"
+        + "".join("`%s` " % f for f in CACHE_FILES) + "); do not edit. -/\n"
+        "namespace Pya.C10.Gen\n\n"
+        "/-- (file, class, attribute) of every container attribute (dict / list / set) of the classes whose\n"
+        "instances live as long as a Checker: the places where a cached value can be mutated. -/\n"
+        "def scannedCaches : List (String × String × String) := [\n" + rows + "\n]\n\n"
+        "end Pya.C10.Gen\n"
+    )
+    lean.write_if_changed(os.path.join(lean.LEAN, "PyaModel", "Generated", "CacheSites.lean"), text)
 
 
 # ============================================================================================ running pyanalyze
@@ -470,8 +563,89 @@ def finish_under_seed(job):
     return json.load(open(pout))
 
 
+# ============================================================================================ cache snapshots
+IMMUTABLE_KINDS = ("memo", "protoCache")
+
+
+def cache_kinds():
+    """{'Class.attr': kind} as registered in Lean (`modelledCaches` in Spec/CacheSpec.lean, read from the source so
+    that it is available without a built driver)."""
+    src = open(os.path.join(lean.LEAN, "PyaModel", "Spec", "CacheSpec.lean")).read()
+    body = src[src.index("def modelledCaches"):]
+    body = body[:body.index("\n]")]
+    return {"%s.%s" % (m.group(1), m.group(2)): m.group(3)
+            for m in re.finditer(r'\("[^"]*", "([^"]*)", "([^"]*)", \.(\w+)\)', body)}
+
+
+def checker_objects(checker):
+    """The objects that live as long as the Checker, by class name."""
+    objs = [checker, checker.arg_spec_cache, checker.ts_finder, checker.reexport_tracker, checker.callable_tracker]
+    objs += list(checker.type_object_cache.values())
+    return objs
+
+
+class CacheWatch:
+    """Snapshots (repr at the time of the snapshot) of every entry of the per-Checker containers the scan found, for the
+    kinds that must be immutable after insertion; `step` reports entries whose rendering changed since an earlier
+    snapshot, and transient containers that are not empty between checks. Unregistered containers are watched too."""
+
+    def __init__(self, sites, kinds, memo_every=1):
+        self.memo_every = memo_every   # memo tables are rendered at every memo_every-th step only (they get large)
+        self.attrs = {}
+        for _, cls, attr in sites:
+            self.attrs.setdefault(cls, []).append(attr)
+        self.kinds = kinds
+        self.snap = {}     # (site, key token) -> (rendering, step at which first seen)
+        self.steps = 0
+
+    def _containers(self, checker):
+        for o in checker_objects(checker):
+            cls = type(o).__name__
+            for attr in self.attrs.get(cls, ()):
+                kind = self.kinds.get("%s.%s" % (cls, attr), "memo")
+                try:
+                    c = getattr(o, attr)
+                except Exception:
+                    continue
+                name = "%s.%s" % (cls, attr)
+                if cls == "TypeObject":
+                    name += "[%r]" % (o.typ,)
+                yield name, kind, c
+
+    def step(self, checker):
+        """-> list of (site, key, before, after, first_seen_step) changes; advances the step counter."""
+        changes = []
+        for name, kind, c in self._containers(checker):
+            if kind == "transient":
+                if len(c):
+                    changes.append((name, "<not empty between checks>", "[]", repr(c)[:300], self.steps))
+                continue
+            if kind not in IMMUTABLE_KINDS or not isinstance(c, dict):
+                continue
+            if kind == "memo" and self.steps % self.memo_every:
+                continue
+            for k, v in list(c.items()):
+                try:
+                    kt = (name, repr(k), hash(k))
+                except Exception:
+                    kt = (name, repr(k), id(k))
+                try:
+                    r = repr(v)
+                except Exception as e:
+                    r = "<repr failed: %s>" % type(e).__name__
+                old = self.snap.get(kt)
+                if old is None:
+                    self.snap[kt] = (r, self.steps)
+                elif old[0] != r:
+                    changes.append((name, kt[1][:300], old[0][:600], r[:600], old[1]))
+                    self.snap[kt] = (r, old[1])
+        self.steps += 1
+        return changes
+
+
 # ============================================================================================ protocol worlds (Model B)
-ARGS = ["int", "str"]   # variant a of a generic protocol P[T]: T = ARGS[a]
+ARGS = ["int", "str", "T"]   # variant a of a generic protocol P[T]: T = ARGS[a]; "T" = the library's type variable itself
+BOUND_TOKEN = {"int": 0, "str": 1, "Any": 2}   # bound tokens of the Lean model; 3 = a tuple; class C<k> = 10 + k; type variable T = 0
 
 
 class World:
@@ -507,6 +681,10 @@ class World:
             for m, slots in mem.items():
                 L.append("    def %s(self) -> %s: raise NotImplementedError" % (m, ret(slots)))
             L.append("")
+        # generic callables: a generic Protocol parameter matched structurally plus a parameter using the same type variable
+        for i in range(len(self.protos)):
+            L.append("def f%d(a: P%d[T], b: T) -> T: raise NotImplementedError" % (i, i))
+        L.append("")
         return "\n".join(L) + "\n"
 
     def load(self, ctx):
@@ -521,6 +699,9 @@ class World:
 
     @staticmethod
     def slot_atom(e, t, a):
+        if e == "T" and ARGS[a] == "T":
+            # TypeVarValue(T).can_assign(actual): always accepted, with the bound `actual <= T`
+            return "B0.%d" % (10 + t[1] if isinstance(t, tuple) else BOUND_TOKEN[t])
         if e == "T":
             e = ARGS[a]
         if e in ("int", "str"):
@@ -539,7 +720,10 @@ class World:
         for m in member_order:
             es = self.protos[i][m]
             ts = self.classes[j].get(m)
-            if ts == ["Any"]:
+            if ts is not None and es == ["T"] and ARGS[a] == "T":
+                # a bare type variable accepts whatever the member returns and records it as a bound
+                out.append(["B0.%d" % (3 if len(ts) != 1 else 10 + ts[0][1] if isinstance(ts[0], tuple) else BOUND_TOKEN[ts[0]])])
+            elif ts == ["Any"]:
                 out.append(["A"])  # the whole member is Any: accepted unless Any is excluded, whatever the shape
             elif ts is None or len(ts) != len(es):
                 out.append(["F"])
@@ -592,6 +776,17 @@ class World:
 
     def nontrivial(self):
         return any(isinstance(s, tuple) or s == "Any" for c in self.classes for sl in c.values() for s in sl)
+
+    def variant_preserving(self, orders):
+        """Every nested protocol check uses the generic arguments of the enclosing one (P<k>[T] inside P<i>[T])."""
+        for i in range(len(self.protos)):
+            for a in range(len(ARGS)):
+                for j in range(len(self.classes)):
+                    for m in self.req(i, a, j, orders[i]):
+                        for at in m:
+                            if at[0] == "S" and int(at[1:].split(".")[1]) != a:
+                                return False
+        return True
 
 
 def random_world(rng, name, np_max=3, nc_max=3):
@@ -646,12 +841,40 @@ def member_orders(world, checker):
     return out
 
 
-def api_history(world, checker, queries):
-    """Answers of GenericValue(P, [arg]).can_assign(TypedValue(C)) along a history; query = (ex, i, a, j)."""
-    from pyanalyze.value import CanAssignError, GenericValue, TypedValue
+def render_bounds(world, bm):
+    """A real bounds map in the notation of the Lean driver: {tv:tok.tok;…} (tokens: BOUND_TOKEN, class C<k> = 10+k)."""
+    from pyanalyze.value import AnyValue, LowerBound, TypedValue
+    parts = []
+    for tv, bounds in bm.items():
+        toks = []
+        for b in bounds:
+            v = b.value
+            if not isinstance(b, LowerBound):
+                toks.append("?%s" % type(b).__name__)
+            elif isinstance(v, AnyValue):
+                toks.append("2")
+            elif isinstance(v, TypedValue) and v.typ is int:
+                toks.append("0")
+            elif isinstance(v, TypedValue) and v.typ is str:
+                toks.append("1")
+            elif type(v).__name__ == "SequenceValue":
+                toks.append("3")
+            elif isinstance(v, TypedValue) and getattr(v.typ, "__module__", None) == world.name and v.typ.__name__.startswith("C"):
+                toks.append(str(10 + int(v.typ.__name__[1:])))
+            else:
+                toks.append("?%r" % (v,))
+        parts.append("%s:%s" % ("0" if tv is world.module.T else "?%r" % (tv,), ".".join(toks)))
+    return "{" + ";".join(parts) + "}"
+
+
+def api_history(world, checker, queries, bounds=None, after=None):
+    """Verdicts of GenericValue(P, [arg]).can_assign(TypedValue(C)) along a history; query = (ex, i, a, j). If `bounds`
+    is a list, the rendered bounds maps ('-' for an error) are appended to it; `after(result)` runs after each query."""
+    from pyanalyze.value import CanAssignError, GenericValue, TypedValue, TypeVarValue
     out = []
     for ex, i, a, j in queries:
-        left = GenericValue(getattr(world.module, "P%d" % i), [TypedValue(int if a == 0 else str)])
+        arg = TypeVarValue(world.module.T) if ARGS[a] == "T" else TypedValue(int if a == 0 else str)
+        left = GenericValue(getattr(world.module, "P%d" % i), [arg])
         right = TypedValue(getattr(world.module, "C%d" % j))
         try:
             if ex:
@@ -660,8 +883,14 @@ def api_history(world, checker, queries):
             else:
                 r = left.can_assign(right, checker)
             out.append("0" if isinstance(r, CanAssignError) else "1")
+            if bounds is not None:
+                bounds.append("-" if isinstance(r, CanAssignError) else render_bounds(world, r))
+            if after is not None:
+                after(r)
         except Exception as e:
             out.append("EXC:%s" % type(e).__name__)
+            if bounds is not None:
+                bounds.append("EXC")
     return out
 
 
@@ -695,6 +924,7 @@ def parse_kv(line):
 
 # ============================================================================================ generated programs
 HEADER = ("from typing import Any, Protocol, Union\nfrom typing_extensions import reveal_type\nimport contextlib\n"
+          "from fractions import Fraction\n"
           "from collections.abc import Hashable, Sized, Iterable, Container, Collection, Reversible\n"
           "from typing import SupportsInt, SupportsFloat, SupportsAbs, SupportsIndex, SupportsRound, SupportsComplex, SupportsBytes\n"
           "from pyanalyze.extensions import evaluated, is_of_type\n")
@@ -802,6 +1032,51 @@ def snip_world(k, world, i, a, j, ex):
     return s
 
 
+def _probe(k, params, expr, probe):
+    """reveal_type / wrong-return / wrong-argument probe of one call expression."""
+    if probe == 0:
+        return ["def f%d(%s) -> None:" % (k, params), "    reveal_type(%s)" % expr]
+    if probe == 1:
+        return ["def f%d(%s) -> str:" % (k, params), "    return %s" % expr]
+    return ["def want%d(s: str) -> None: ..." % k, "def f%d(%s) -> None:" % (k, params), "    want%d(%s)" % (k, expr)]
+
+
+def snip_gcall(k, world, i, j, arg, probe):
+    """`lib.f<i>(c, arg)` with `def f<i>(a: P<i>[T], b: T) -> T`: the protocol query (normal mode, variant T) whose bounds
+    map the call machinery unifies with the bound `arg <= T`."""
+    L = _probe(k, "c: %s.C%d" % (world.name, j), "%s.f%d(c, %s)" % (world.name, i, arg), probe)
+    return Snippet("mode", L, world=world.name, proto="%s.P%d[T]" % (world.name, i), value="%s.C%d" % (world.name, j),
+                   ex=False, i=i, a=ARGS.index("T"), j=j, gcall=True)
+
+
+# typeshed callables with a generic Protocol parameter matched structurally plus another parameter using the same type
+# variable: (parameter declaration, [call expressions with different other arguments])
+TCALLS = [
+    ("x: Fraction", ["pow(x, 2)", "pow(x, 0.5)", "pow(x, -1)", "pow(x, Fraction(1, 2))", "pow(x, 2, None)"]),
+    ("x: int", ["pow(x, 2)", "pow(x, 0.5)", "pow(x, -1)", "pow(x, 2, 5)"]),
+    ("x: float", ["pow(x, 2)", "pow(x, 0.5)", "pow(x, 1j)"]),
+    ("xs: list[Fraction]", ["sum(xs)", "sum(xs, 0.5)", "sum(xs, Fraction(0))", "sum(xs, 1j)"]),
+    ("xs: list[int]", ["sum(xs)", "sum(xs, 0.5)", "sum(xs, Fraction(0))", "sum(xs, start=1)"]),
+    ("x: Fraction", ["max(x, 1)", "max(x, 0.5)", "min(x, Fraction(2))", "max(x, 1, 0.5)", "min(x, x)"]),
+    ("x: int", ["max(x, 1)", "max(x, 0.5)", "min(x, True)", "max([x], default=0.5)", "max([x], default=None)"]),
+    ("x: str", ["max(x, 'a')", "min(x, 'b', 'c')", "max([x], key=len)", "max([x], default=1)"]),
+    ("xs: list[str]", ["sorted(xs)", "sorted(xs, key=len)", "sorted(xs, reverse=True)", "sorted(xs, key=lambda s: 0.5)"]),
+    ("xs: list[Fraction]", ["sorted(xs)", "sorted(xs, key=float)", "sorted(xs, key=abs)"]),
+    ("x: Fraction", ["divmod(x, 2)", "divmod(x, 0.5)", "divmod(x, Fraction(1, 3))", "divmod(2, x)"]),
+    ("x: int", ["divmod(x, 2)", "divmod(x, 0.5)", "divmod(x, True)"]),
+    ("x: Fraction", ["round(x)", "round(x, 2)", "round(x, None)"]),
+    ("x: float", ["round(x)", "round(x, 2)", "round(x, True)"]),
+    ("x: Fraction", ["abs(x)", "abs(-x)"]),
+    ("x: complex", ["abs(x)", "abs(x * 2)"]),
+    ("xs: list[int]", ["next(iter(xs))", "next(iter(xs), None)", "next(iter(xs), 0.5)", "next(iter(xs), 'a')"]),
+    ("xs: dict[str, Fraction]", ["next(iter(xs))", "next(iter(xs.values()), 0.5)", "next(iter(xs.items()), None)"]),
+]
+
+
+def snip_tcall(k, decl, expr, probe):
+    return Snippet("tcall", _probe(k, decl, expr, probe), decl=decl, expr=expr)
+
+
 class Program:
     def __init__(self, snippets, imports=()):
         self.snippets = snippets
@@ -890,6 +1165,23 @@ def gen_programs(ctx, worlds):
         for _ in range(nq):
             i, j = rng.randrange(len(w.protos)), rng.randrange(len(w.classes))
             programs.append(Program([snip_world(next(kk), w, i, int(rng.random() < 0.3), j, rng.random() < 0.35)], imports=[w.name]))
+        # generic calls f<i>(c, arg) with different other arguments: only where the model proves the bounds map
+        # history independent (well-founded worlds)
+        if getattr(w, "wellfounded", False):
+            for _ in range(ctx.n(3, 5)):
+                i, j = rng.randrange(len(w.protos)), rng.randrange(len(w.classes))
+                programs.append(Program([snip_gcall(next(kk), w, i, j, rng.choice(["1", "'s'", "0.5", "None", "c"]), rng.randrange(3))],
+                                        imports=[w.name]))
+    # typeshed generic callables, each family several times with different other arguments, every kind of probe
+    fams = list(range(len(TCALLS)))
+    rng.shuffle(fams)
+    for fi in fams[:ctx.n(6, len(fams))]:
+        decl, exprs = TCALLS[fi]
+        for e in rng.sample(exprs, min(len(exprs), ctx.n(3, 5))):
+            programs.append(Program([snip_tcall(next(kk), decl, e, rng.randrange(3))], imports=[]))
+    # the pair of the seeded regression: the same callable and receiver, another second argument
+    programs.append(Program([snip_tcall(next(kk), "x: Fraction", "pow(x, 0.5)", 1)]))
+    programs.append(Program([snip_tcall(next(kk), "x: Fraction", "pow(x, 2)", 0)]))
     return programs
 
 
@@ -1050,6 +1342,8 @@ def answer_bit(prog, rendering):
         return "?"
     if any(d[2] == "EXC" for d in rendering):
         return "?"
+    if s.info.get("gcall"):
+        return "0" if any(d[2] == "incompatible_argument" and "for a:" in d[3] for d in texts) else "1"
     return "0" if any(d[2] == "incompatible_assignment" for d in texts) else "1"
 
 
@@ -1163,6 +1457,50 @@ def api_sites(ctx, B, post):
         post.append(chk4)
 
 
+def api_unify(ctx, B, post):
+    """value.py unify_bounds_maps against the pure `unifyBM`; it must neither change its arguments nor hand back one of
+    their lists (a caller extending the result would then write into a cached bounds map)."""
+    from typing import TypeVar
+    from pyanalyze.value import KnownValue, LowerBound, unify_bounds_maps
+    rng = ctx.rng
+    tvs = [TypeVar("U%d" % i) for i in range(3)]
+    for _ in range(ctx.n(60, 600)):
+        maps, model = [], []
+        for _ in range(rng.randint(0, 4)):
+            m, mm = {}, []
+            for ti in rng.sample(range(3), rng.randint(0, 3)):
+                toks = [rng.randrange(20) for _ in range(rng.randint(0, 3))]
+                m[tvs[ti]] = [LowerBound(tvs[ti], KnownValue(t)) for t in toks]
+                mm.append("%d:%s" % (ti, ".".join(map(str, toks))))
+            maps.append(m)
+            model.append(";".join(mm))
+        before = [repr(m) for m in maps]
+        res = unify_bounds_maps(maps)
+        got = ";".join("%d:%s" % (tvs.index(tv), ".".join(str(b.value.val) for b in bs)) for tv, bs in res.items())
+        after_call = [repr(m) for m in maps]
+        changed = after_call != before
+        for bs in res.values():
+            if isinstance(bs, list):
+                bs.append(None)      # what a caller may do with a map it was handed as new
+        aliased = [repr(m) for m in maps] != before and not changed
+        i = B.add("unify", "|".join(model))
+        case = {"function": "unify_bounds_maps", "maps": model}
+        ctx.count(1, unify=1)
+        if len(maps) > 1:
+            ctx.nontriv("unify|" + "|".join(model))
+        if changed:
+            ctx.candidate(case, "unify_bounds_maps changed one of its arguments in place: %s -> %s" % (before, after_call),
+                          cls=None, conforms=True, stream="unify")
+
+        def chk(i=i, got=got, case=case, aliased=aliased):
+            ctx.corr("unify")
+            if B.kv(i).get("out") != got:
+                ctx.disagree("unify", case, got, B.out[i])
+            elif aliased:
+                ctx.disagree("unify", case, "the result shares a list with an argument", "unifyBM returns a new map")
+        post.append(chk)
+
+
 def api_memo(ctx, B, post):
     """Memo tables: trace of hits / misses / bypasses and transparency against a fresh checker."""
     import collections
@@ -1258,22 +1596,39 @@ def reset_protocol_caches(world, checker):
     del checker.assumed_compatibilities[:]
 
 
-def api_worlds(ctx, B, post, worlds):
+def api_worlds(ctx, B, post, worlds, watch_sites=(), kinds=None):
+    from pyanalyze.value import CanAssignError, KnownValue, LowerBound, unify_bounds_maps
     rng = ctx.rng
     for w in worlds:
         chk = pya.make_checker()
         orders = member_orders(w, chk)
         ranks = w.ranks(orders)
         L = ctx.n(7, 10)
-        qs = [(rng.random() < 0.35, rng.randrange(len(w.protos)), int(rng.random() < 0.3), rng.randrange(len(w.classes))) for _ in range(L)]
-        got = api_history(w, chk, qs)
+        qs = [(rng.random() < 0.35, rng.randrange(len(w.protos)), rng.choice([0, 0, 1, 2, 2]), rng.randrange(len(w.classes)))
+              for _ in range(L)]
+        # after every positive answer do what the call machinery does with it — unify it with the bounds the other
+        # argument of `f(a: P[T], b: T)` contributes — and watch the cache entries: they must not change
+        watch = CacheWatch(watch_sites, kinds or {})
+        mutated = []
+
+        def after(r, chk=chk, watch=watch, mutated=mutated, w=w):
+            if not isinstance(r, CanAssignError):
+                unify_bounds_maps([r, {w.module.T: [LowerBound(w.module.T, KnownValue(len(mutated) + watch.steps))]}])
+            mutated.extend(watch.step(chk))
+        got_b = []
+        got = api_history(w, chk, qs, bounds=got_b, after=after)
+        for site, key, before, aft, first in mutated[:2]:
+            ctx.candidate({"kind": "proto-api-cache", "world": w.source(), "history": [qtext(q) for q in qs], "site": site,
+                           "key": key, "before": before, "after": aft},
+                          "a bounds map stored in %s changed after it was inserted (query %d of the history put it there)" % (site, first),
+                          cls=None, conforms=True, stream="cache")
         # answers of a checker whose protocol caches are emptied before every query (cheap stand-in for a fresh one;
         # every history dependence found is re-confirmed below with a really fresh Checker)
         fr = pya.make_checker()
-        fresh = []
+        fresh, fresh_b = [], []
         for q in qs:
             reset_protocol_caches(w, fr)
-            fresh += api_history(w, fr, [q])
+            fresh += api_history(w, fr, [q], bounds=fresh_b)
         i = B.add(*hist_line(w, orders, ranks, qs[:-1], qs[-1]).split("\t"))
         case0 = {"world": w.source(), "member_orders": orders, "history": [qtext(q) for q in qs]}
         ctx.count(len(qs), proto_queries=len(qs), **{"world_cyclic" if ranks is None else "world_wellfounded": 1})
@@ -1282,19 +1637,27 @@ def api_worlds(ctx, B, post, worlds):
         if len(ctx.samples) < 3:
             ctx.sample({"world_reqs": w.reqs_text(orders), "history": [qtext(q) for q in qs], "answers": "".join(got), "fresh": "".join(fresh)})
         deps = [n for n in range(len(qs)) if got[n] != fresh[n]]
+        if ranks is not None:
+            # well-founded world: the bounds map, too, must be the one a fresh checker returns
+            for n in range(len(qs)):
+                if got[n] == fresh[n] and got_b[n] != fresh_b[n]:
+                    ctx.candidate(dict(case0, history=[qtext(q) for q in qs[:n]], query=qtext(qs[n]), kind="proto-api"),
+                                  "the bounds map of P%d[%s].can_assign(C%d) is %s after the history but %s on a fresh checker" % (
+                                      qs[n][1], ARGS[qs[n][2]], qs[n][3], got_b[n], fresh_b[n]), cls=None, conforms=True, stream="proto")
+                    break
         dep_idx = {}
         for n in deps[:3]:
             dep_idx[n] = B.add(*hist_line(w, orders, ranks, qs[:n], qs[n]).split("\t"))
 
-        def chk1(i=i, w=w, qs=qs, got=got, fresh=fresh, case0=case0, deps=deps, dep_idx=dep_idx, ranks=ranks):
+        def chk1(i=i, w=w, qs=qs, got=got, fresh=fresh, case0=case0, deps=deps, dep_idx=dep_idx, ranks=ranks, got_b=got_b, fresh_b=fresh_b):
             kv = B.kv(i)
             ctx.corr("proto", len(qs))
-            conforms = kv.get("ans") == "".join(got)
+            conforms = kv.get("ans") == "".join(got) and kv.get("bm") == "/".join(got_b)
             if not conforms:
-                ctx.disagree("proto", case0, "".join(got), B.out[i])
+                ctx.disagree("proto", case0, "".join(got) + " " + "/".join(got_b), B.out[i])
             ctx.corr("spec", len(qs))
-            if kv.get("freshAll") != "".join(fresh):
-                ctx.disagree("spec", dict(case0, what="fresh answers"), "".join(fresh), B.out[i])
+            if kv.get("freshAll") != "".join(fresh) or kv.get("bmFresh") != "/".join(fresh_b):
+                ctx.disagree("spec", dict(case0, what="fresh answers"), "".join(fresh) + " " + "/".join(fresh_b), B.out[i])
             for n in deps[:3]:
                 kvn = B.kv(dep_idx[n])
                 # confirm with a really fresh Checker
@@ -1318,10 +1681,12 @@ def api_worlds(ctx, B, post, worlds):
                     j = B.add(*hist_line(w, orders, ranks, [], q).split("\t"))
                     f = fresh[qs.index(q)]
 
-                    def chk2(j=j, f=f, q=q, case0=case0, ranks=ranks):
+                    def chk2(j=j, f=f, q=q, case0=case0, ranks=ranks, vp=w.variant_preserving(orders)):
                         kv = B.kv(j)
                         ctx.corr("spec")
-                        if kv.get("gfp") != f or (ranks is not None and kv.get("sem") != f):
+                        # the recursion guard is keyed by (protocol class, class): it equates P[str] nested in P[T] with
+                        # P[T]; the per-variant greatest fixed point is the reference only where nesting keeps the variant
+                        if (vp and kv.get("gfp") != f) or (ranks is not None and kv.get("sem") != f):
                             ctx.disagree("spec", dict(case0, what="gfp/sem of " + qtext(q)), f, B.out[j])
                     post.append(chk2)
 
@@ -1345,8 +1710,9 @@ def diff_positions(a, b):
     return True, out
 
 
-def e2e(ctx, B, post, worlds, with_model):
+def e2e(ctx, B, post, worlds, with_model, watch_sites=(), kinds=None):
     rng = ctx.rng
+    cache_changes = []   # (label, program index, index of the program after which the entry was first seen, change)
     programs = gen_programs(ctx, worlds)
     srcs = [p.src for p in programs]
     seeds = [0] + [rng.randrange(1, 2 ** 32) for _ in range(ctx.n(3, 7))]
@@ -1357,9 +1723,13 @@ def e2e(ctx, B, post, worlds, with_model):
     base, runs = [], []   # runs: (label, program index, rendering, history info)
     for n, p in enumerate(programs):
         kw = new_kwargs()
+        watch = CacheWatch(watch_sites, kinds or {})
         r0 = check_program(p.src, kw)
+        watch.step(kw["checker"])
         base.append(r0)
         runs.append(("repeat", n, check_program(p.src, kw), None))
+        for ch in watch.step(kw["checker"]):
+            cache_changes.append(("repeat", n, n, ch))
     # (iii) histories: random orders of all programs, one shared Checker per order
     orders = []
     for h in range(ctx.n(3, 10)):
@@ -1367,14 +1737,31 @@ def e2e(ctx, B, post, worlds, with_model):
         rng.shuffle(order)
         orders.append(order)
         kw = new_kwargs()
+        # the protocol caches after every program; the (large) memo tables after every 8th program in the thorough tier
+        watch = CacheWatch(watch_sites, kinds or {}, memo_every=ctx.n(1, 8))
         for pos, n in enumerate(order):
             runs.append(("history%d" % h, n, check_program(programs[n].src, kw), (h, pos)))
+            for ch in watch.step(kw["checker"]):
+                cache_changes.append(("history%d" % h, n, order[ch[4]], ch))
     for job in jobs:
         res = finish_under_seed(job)
         for n, r in enumerate(res):
             runs.append(("seed%d" % job[2], n, r, None))
     ctx.extra["programs"] = len(programs)
     ctx.extra["renderings_compared"] = len(runs)
+    ctx.extra["cache_snapshots"] = len(runs)
+    ctx.corr("cache", len(runs))
+    seen_sites = set()
+    for label, n, first, (site, key, before, after, _) in cache_changes:
+        if (site.split("[")[0], label[:4]) in seen_sites:
+            continue
+        seen_sites.add((site.split("[")[0], label[:4]))
+        ctx.candidate({"kind": "cache-mutation", "program": programs[n].src,
+                       "history": [programs[first].src] if first != n else [], "run": label, "site": site, "key": key,
+                       "before": before, "after": after},
+                      "a value stored in the per-Checker cache %s changed while a later program was checked (entries must be "
+                      "immutable after insertion): %s -> %s" % (site, before[:160], after[:160]),
+                      cls=None, conforms=True, stream="cache")
     # one-query programs over protocol worlds / typeshed protocols: the detail lines (which member fails first) are
     # the business of the `proto` snippets; here only the head line of every diagnostic is compared
     head = lambda r: [[d[0], d[1], d[2], d[3].split("\n")[0]] for d in r]
@@ -1564,8 +1951,17 @@ def replay_proto_api(ctx, case, name="c10replay"):
     w = world_from_source(ctx, case["world"], "%s_%s" % (name, hashlib.sha256(case["world"].encode()).hexdigest()[:8]))
     hist = [parse_q(t) for t in case["history"]]
     q = parse_q(case["query"])
-    after = api_history(w, pya.make_checker(), hist + [q])[-1]
-    fresh = api_history(w, pya.make_checker(), [q])[0]
+    from pyanalyze.value import CanAssignError, KnownValue, LowerBound, unify_bounds_maps
+    ba, bf = [], []
+
+    def call_layer(r):
+        # what api_worlds does after every answer: the call machinery unifies it with the other argument's bound
+        if not isinstance(r, CanAssignError) and hasattr(w.module, "T"):
+            unify_bounds_maps([r, {w.module.T: [LowerBound(w.module.T, KnownValue(len(ba)))]}])
+    after = api_history(w, pya.make_checker(), hist + [q], bounds=ba, after=call_layer)[-1]
+    fresh = api_history(w, pya.make_checker(), [q], bounds=bf)[0]
+    if after == fresh and ba[-1] != bf[-1]:
+        return after + " " + ba[-1], fresh + " " + bf[-1]   # same verdict, another bounds map
     return after, fresh
 
 
@@ -1670,11 +2066,16 @@ def _run(ctx, with_model):
     worlds = sm + [random_world(rng, "%s_r%d" % (tag, i)) for i in range(ctx.n(18, 240))]
     for w in worlds:
         w.load(ctx)
+    watch_sites, kinds = scan_caches(pya.REPO), cache_kinds()
     api_sites(ctx, B, post)
+    api_unify(ctx, B, post)
     api_memo(ctx, B, post)
-    api_worlds(ctx, B, post, worlds)
+    api_worlds(ctx, B, post, worlds, watch_sites, kinds)
     e2e_worlds = rng.sample(worlds, ctx.n(4, 16))
-    pending = e2e(ctx, B, post, e2e_worlds, with_model)
+    chk0 = pya.make_checker()
+    for w in e2e_worlds:
+        w.wellfounded = w.ranks(member_orders(w, chk0)) is not None
+    pending = e2e(ctx, B, post, e2e_worlds, with_model, watch_sites, kinds)
     if with_model:
         B.run()
         for f in post:
@@ -1716,7 +2117,31 @@ def replay(ctx, data):
     case = data["case"]
     out = {"case": {k: v for k, v in case.items() if k in ("run", "query", "history_queries", "line", "col")}}
     differs = False
-    if case.get("kind") == "proto-api":
+    if case.get("function") == "unify_bounds_maps":
+        from typing import TypeVar
+        from pyanalyze.value import KnownValue, LowerBound, unify_bounds_maps
+        tvs = [TypeVar("U%d" % i) for i in range(3)]
+        maps = [{tvs[int(e.split(":")[0])]: [LowerBound(tvs[int(e.split(":")[0])], KnownValue(int(t))) for t in e.split(":")[1].split(".") if t]
+                 for e in m.split(";") if e} for m in case["maps"]]
+        before = [repr(m) for m in maps]
+        unify_bounds_maps(maps)
+        out.update(arguments_before=before, arguments_after=[repr(m) for m in maps])
+        differs = out["arguments_before"] != out["arguments_after"]
+    elif case.get("kind") == "proto-api-cache":
+        from pyanalyze.value import CanAssignError, KnownValue, LowerBound, unify_bounds_maps
+        w = world_from_source(ctx, case["world"], "c10replay_%s" % hashlib.sha256(case["world"].encode()).hexdigest()[:8])
+        chk = pya.make_checker()
+        watch = CacheWatch(scan_caches(pya.REPO), cache_kinds())
+        changes = []
+
+        def after(r):
+            if not isinstance(r, CanAssignError):
+                unify_bounds_maps([r, {w.module.T: [LowerBound(w.module.T, KnownValue(watch.steps))]}])
+            changes.extend(watch.step(chk))
+        api_history(w, chk, [parse_q(t) for t in case["history"]], after=after)
+        out.update(cache_entries_changed=[c[:4] for c in changes])
+        differs = bool(changes)
+    elif case.get("kind") == "proto-api":
         after, fresh = replay_proto_api(ctx, case)
         out.update(after_history=after, fresh=fresh)
         differs = after != fresh
@@ -1731,10 +2156,19 @@ def replay(ctx, data):
                 results["seed%d" % s] = finish_under_seed(start_under_seed(ctx, [src], s, "replay"))[0]
         elif label.startswith("history") or case.get("history"):
             results["after-history"] = check_with_history(case.get("history", []), src)[0]
+        if case.get("kind") == "cache-mutation":
+            kw = new_kwargs()
+            watch = CacheWatch(scan_caches(pya.REPO), cache_kinds())
+            changes = []
+            for h in case.get("history", []) + [src, src]:
+                check_program(h, kw)
+                changes += watch.step(kw["checker"])
+            out["cache_entries_changed"] = [c[:4] for c in changes]
+            differs = differs or bool(changes)
         for n, r in enumerate(check_with_history([], src, times=6)):
             results["repeat%d" % n] = r
         bad = {k: r for k, r in results.items() if r != fresh}
         out.update(fresh=fresh, differing=bad)
-        differs = bool(bad)
+        differs = differs or bool(bad)
     print(json.dumps(out, indent=1, default=str))
     return 1 if differs else 0
